@@ -135,6 +135,27 @@ mod s5 {
     }
 }
 
+mod s6 {
+    // the same tag / the same default names in two places with different content: the generated types must stay apart
+    a2lfile::a2ml_specification! {
+        <Clash>
+        block "IF_DATA" taggedunion {
+            "CAN" taggedstruct {
+                "MODE" uint;
+                "RATE" struct { uint; };
+                "KIND" enum { "A", "B" };
+                ("NODE" struct { uchar; })*;
+            };
+            "LIN" taggedstruct {
+                "MODE" char[20];
+                "RATE" struct { char[4]; uint; };
+                "KIND" enum { "X", "Y", "Z" };
+                ("NODE" struct { char[6]; long; })*;
+            };
+        };
+    }
+}
+
 pub fn specs() -> Vec<SpecCase> {
     let point = || T::Struct(vec![sc("int"), sc("int")]);
     let color = || T::Enum(vec![("RED".into(), Some(1)), ("GREEN".into(), Some(2)), ("BLUE".into(), Some(16))]);
@@ -216,6 +237,37 @@ pub fn specs() -> Vec<SpecCase> {
                     tg("T2", Some(T::CharArr(5)), false, true, false),
                     tg("SEQUENCE", Some(T::CharArr(12)), true, false, true),
                 ]),
+            ])
+        ),
+        spec_case!(
+            s6,
+            Clash,
+            CLASH_TEXT,
+            T::TaggedUnion(vec![
+                tg(
+                    "CAN",
+                    Some(T::TaggedStruct(vec![
+                        tg("MODE", Some(sc("uint")), false, false, false),
+                        tg("RATE", Some(T::Struct(vec![sc("uint")])), false, false, false),
+                        tg("KIND", Some(T::Enum(vec![("A".into(), None), ("B".into(), None)])), false, false, false),
+                        tg("NODE", Some(T::Struct(vec![sc("uchar")])), false, true, false),
+                    ])),
+                    false,
+                    false,
+                    false
+                ),
+                tg(
+                    "LIN",
+                    Some(T::TaggedStruct(vec![
+                        tg("MODE", Some(T::CharArr(20)), false, false, false),
+                        tg("RATE", Some(T::Struct(vec![T::CharArr(4), sc("uint")])), false, false, false),
+                        tg("KIND", Some(T::Enum(vec![("X".into(), None), ("Y".into(), None), ("Z".into(), None)])), false, false, false),
+                        tg("NODE", Some(T::Struct(vec![T::CharArr(6), sc("long")])), false, true, false),
+                    ])),
+                    false,
+                    false,
+                    false
+                ),
             ])
         ),
         spec_case!(
